@@ -134,7 +134,7 @@ func specResult(root *model.Node, op string) string {
 			sb.WriteString("returned the callback's error")
 		}
 		return sb.String()
-	case "textfail", "jsonfail":
+	case "textfail", "jsonfail", "dryfail":
 		return "write-error reported"
 	case "mkdirfail":
 		return "ErrExistPath, nothing created"
@@ -288,6 +288,22 @@ func (t *liveTree) runOp(op, tmp string) string {
 			return "ERR:" + errStr(o.Err) + fmt.Sprint(o.Panic)
 		}
 		return sb.String()
+	case "dryfail":
+		// a dry-run report (with a stray encode option, through the caller's writer) whose writer
+		// fails: reported, and nothing of it may turn up in a later report
+		w := mon.NewRecWriter()
+		w.FailAt = 0
+		w.Short = true
+		o := Guard(func() error {
+			return gtree.OutputFromRoot(w, t.root, gtree.WithDryRun(), gtree.WithEncodeJSON(), gtree.WithFileExtensions([]string{".gz"}))
+		})
+		if o.Panic != nil {
+			return "PANIC"
+		}
+		if o.Err != nil {
+			return "write-error reported"
+		}
+		return "nil although the writer failed"
 	case "textfail", "jsonfail":
 		// the writer fails at its first write: the call must report it (and leave nothing behind
 		// that a later operation could see)
@@ -526,6 +542,7 @@ func runC13(c *Ctx) bool {
 		{[]string{"mkdir", "verify"}, L - 2},
 		{[]string{"dryrun.json", "text.b3", "json"}, L - 2}, // dry run with a stray encode option, before and after other outputs
 		{[]string{"dryrun.massive.x5", "walk"}, L - 3},
+		{[]string{"dryfail", "dryrun.json"}, L - 2}, // a failed dry-run report, then dry-run reports
 	}
 	for _, ps := range passes {
 		var hist []string
@@ -616,8 +633,8 @@ func runC13(c *Ctx) bool {
 	return runC13Concurrent(c)
 }
 
-var c13Ops = []string{"text", "text.b3", "text.b6", "walk", "iter", "json", "walk.massive", "text.massive", "json.massive", "walkfail", "iterbreak", "textfail", "jsonfail", "dryrun", "mkdir", "verify", "mkdirfail", "verifyfail", "dryrun.json", "dryrun.massive.x5"}
-var c13Names = []string{"a", "b", "c", "x.gz", "d e", "日本", "x/y", "p/q"} // the last two are not path elements: mkdir, verify and dry run must reject the tree, whatever happened to it before
+var c13Ops = []string{"text", "text.b3", "text.b6", "walk", "iter", "json", "walk.massive", "text.massive", "json.massive", "walkfail", "iterbreak", "textfail", "jsonfail", "dryrun", "mkdir", "verify", "mkdirfail", "verifyfail", "dryrun.json", "dryrun.massive.x5", "dryfail"}
+var c13Names = []string{"a", "b", "c", "A", "B", "x.gz", "d e", "日本", "x/y", "p/q"} // the last two are not path elements: mkdir, verify and dry run must reject the tree, whatever happened to it before
 
 const c13Rejected = "REJECTED: invalid name, nothing created or reported"
 
